@@ -14,30 +14,46 @@ private def convertOne (fmt : Bytes) : Json :=
   | some cs => Proto.hex (encodeUtf8 (convertDateFormat (charTable dateTable) cs))
   | none => Json.null   -- format is not valid UTF-8: Go substitutes U+FFFD, not modelled
 
-private def parseKey (cls : String) (j : Json) : Except String GoKey :=
+/-- keys travel as: int → integer, uint → natural, str → hex, float → integer rank or `null` (a NaN key),
+    other → [ident, selfEq, printedHex, tyNameHex, goSyntaxHex] -/
+private def parseKey (cls : String) (idx : Nat) (j : Json) : Except String GoKey :=
   match cls with
   | "int" => do let i ← j.getInt?; pure (.int i)
   | "uint" => do let n ← j.getNat?; pure (.uint n)
   | "str" => do let s ← Proto.asBytes j; pure (.str s)
+  | "float" =>
+      match j with
+      | Json.null => pure (.nan idx)
+      | _ => do let i ← j.getInt?; pure (.float i)
   | "other" => do
       let a ← j.getArr?
       match a.toList with
-      | [i, p] => do let n ← i.getNat?; let s ← Proto.asBytes p; pure (.other n s)
-      | _ => throw "other key: want [ident, printedHex]"
+      | [i, se, p, t, g] => do
+          let n ← i.getNat?
+          let se ← se.getBool?
+          let p ← Proto.asBytes p
+          let t ← Proto.asBytes t
+          let g ← Proto.asBytes g
+          pure (.other n se p t g)
+      | _ => throw "other key: want [ident, selfEq, printedHex, tyNameHex, goSyntaxHex]"
   | _ => throw s!"unknown key class {cls}"
 
 private def keyJson : GoKey → Json
   | .int i => Json.num (JsonNumber.fromInt i)
   | .uint n => Json.num (JsonNumber.fromNat n)
+  | .float r => Json.num (JsonNumber.fromInt r)
+  | .nan _ => Json.null
   | .str s => Proto.hex s
-  | .other i p => Json.arr #[Json.num (JsonNumber.fromNat i), Proto.hex p]
+  | .other i se p t g => Json.arr #[Json.num (JsonNumber.fromNat i), Json.bool se, Proto.hex p, Proto.hex t, Proto.hex g]
 
 /-- driver ops of the MapOrder area (see the module TwigModel.MapOrder); `none` = not one of ours
 
   * `maporder_datefmt`       {fmts: [hex…]}                → {outs: [hex | null…]}   repaired convertDateFormat
   * `maporder_datefmt_pinned`{fmt: hex, order: [hex…]}      → {out: hex}              pinned algorithm, table visited in `order` (letters)
-  * `maporder_sort_keys`     {cls: int|uint|str|other, keys: […]} → {sorted: […], determined: bool}
-        keys: ints / naturals / hex strings / [ident, printedHex]; `determined` = no two keys compare equal
+  * `maporder_sort_keys`     {cls: int|uint|float|str|other, keys: […]} → {sorted: […], determined: bool}
+        keys: ints / naturals / rank-or-null / hex strings / [ident, selfEq, printedHex, tyNameHex, goSyntaxHex];
+        `sorted` lists what can be observed of the keys (`GoKey.obs`) in `sortKeys` order;
+        `determined` = any two keys the comparator ties are observably equal (`KeysDetermined`)
 -/
 def mapOrderOps (op : String) (j : Json) : Option (Except String Json) :=
   match op with
@@ -63,10 +79,10 @@ def mapOrderOps (op : String) (j : Json) : Option (Except String Json) :=
   | "maporder_sort_keys" => some do
       let cls ← Proto.getStr j "cls"
       let ks ← Proto.getArr j "keys"
-      let keys ← ks.toList.mapM (parseKey cls)
+      let keys ← (ks.toList.zipIdx).mapM fun (k, i) => parseKey cls i k
       let sorted := sortKeys keys
-      let determined := keys.all fun a => keys.all fun c => a == c || keyLess a c || keyLess c a
-      pure (Proto.ok [("sorted", Json.arr (sorted.map keyJson).toArray), ("determined", Json.bool determined)])
+      let determined := keys.all fun a => keys.all fun c => a.obs == c.obs || keyLess a c || keyLess c a
+      pure (Proto.ok [("sorted", Json.arr (sorted.map fun k => keyJson k.obs).toArray), ("determined", Json.bool determined)])
   | _ => none
 
 end Twig.Ops
